@@ -442,7 +442,7 @@ _ADDENDA = {
             "the transition."),
     "C18": (" Restart variants: the first KILL per task refused (at most three tasks); reconciliation answers 1.5 s late, offers 3 s late and a NewEnvironment "
             "request issued at once, so that the answers arrive while a deployment is in progress (afterwards that environment is all the core knows); "
-            "9-14 tasks per environment with a master that takes 100 ms per KILL call."),
+            "9-14 tasks per environment with a master that takes 250 ms per KILL call."),
     "C20": (" Every resolve case is asked again over the REST endpoints (GET .../resolve and the payload route of local.NewHttpService in front of the "
             "same service) with the same reference."),
 }
